@@ -1,10 +1,10 @@
 import struct, numpy as np
 from . import walk
-from ceos_alos2.sar_image.file_descriptor import file_descriptor_record as IMGFD
-from ceos_alos2.sar_image.signal_data import signal_data_record as SIG
-from ceos_alos2.sar_image.processed_data import processed_data_record as PROC
-from ceos_alos2.sar_leader import structure as LS
-from ceos_alos2.volume_directory.structure import volume_descriptor, file_descriptor, text_record
+from ceos_alos2_pinned.sar_image.file_descriptor import file_descriptor_record as IMGFD
+from ceos_alos2_pinned.sar_image.signal_data import signal_data_record as SIG
+from ceos_alos2_pinned.sar_image.processed_data import processed_data_record as PROC
+from ceos_alos2_pinned.sar_leader import structure as LS
+from ceos_alos2_pinned.volume_directory.structure import volume_descriptor, file_descriptor, text_record
 
 def _random_value(rng, ln, kind, names, chain):
     """random well-formed content for a leaf (numeric text for numeric adapters, a listed code for enums, ASCII text)"""
@@ -23,6 +23,9 @@ def _random_value(rng, ln, kind, names, chain):
             return ''
         if r < 0.25:
             return str(int(rng.integers(0, 2)))  # boundary values 0 / 1
+        if r < 0.33 and ln > 1:
+            # full-width values (beyond 2**31 / 2**53 where the field is wide enough): all nines, or random digits
+            return '9' * ln if rng.random() < 0.5 else ''.join(rng.choice(list('123456789')) + ''.join(rng.choice(list('0123456789'), ln - 1)))
         return str(int(rng.integers(0, 10 ** min(ln - 1, 9)))) if ln > 1 else str(int(rng.integers(0, 10)))
     if 'AsciiFloat' in names:
         r = rng.random()
@@ -35,13 +38,32 @@ def _random_value(rng, ln, kind, names, chain):
                 return t
         return '0'
     alphabet = 'ABCDEFGHIJKLMNOPQRSTUVWXYZabcdefghijklmnopqrstuvwxyz0123456789 -_./:'
+    # free text: boundary shapes too - blank, digits only (text that would also parse as a number), full width, right-justified;
+    # TEXT_MODE makes all free-text leaves of one record take the same shape (records that are blank / numeric throughout)
+    if ln == 0:
+        return ''
+    mode = TEXT_MODE[0] if TEXT_MODE[0] != 'mixed' else str(rng.choice(['any', 'any', 'any', 'any', 'blank', 'digits', 'full', 'right']))
+    if mode == 'blank':
+        return ''
+    if mode == 'digits':
+        return ''.join(rng.choice(list('0123456789'), int(rng.integers(1, ln + 1))))
+    if mode == 'full':
+        return ''.join(rng.choice(list(alphabet.replace(' ', '')), ln))
     n = int(rng.integers(0, ln + 1))
-    return ''.join(rng.choice(list(alphabet), n))
+    t = ''.join(rng.choice(list(alphabet), n))
+    if mode == 'right':
+        return t.strip().rjust(ln)
+    return t
+
+
+TEXT_MODE = ['mixed']
 
 
 def fill(rec, size, values, counts=None, defaults=True, rng=None):
     out=[]; end = walk.describe(rec, counts or {}, 0, (), out)
     buf = bytearray(b' '*size)
+    if rng is not None:
+        TEXT_MODE[0] = str(rng.choice(['mixed'] * 7 + ['blank', 'digits', 'full']))
     for path, off, ln, kind, chain in out:
         key = '.'.join(map(str,path))
         v = values.get(key)
@@ -153,7 +175,7 @@ def volume_dir(nfp=4, created='2020030112345678', rng=None):
     tx, _ = fill(text_record, 360, fixed, rng=rng)
     return bytes(vd)+fds+bytes(tx)
 
-def summary(files, shapes):
+def summary(files, shapes, order=None):
     lines = ['Odi_SiteDateTime="20200301 12:34:56"', 'Scs_SceneID="ALOS2123450000-200229"', 'Scs_SceneShift="0"',
              'Pds_ProductID="WBDR1.5RUD"', 'Pds_ResamplingMethod="NN"', 'Pds_UTM_ZoneNo="31"', 'Pds_MapDirection="MapNorth"',
              'Pds_OrbitDataPrecision="Precision"','Pds_AttitudeDataPrecision="Onboard"','Pds_PixelSpacing="25.0"',
@@ -164,13 +186,17 @@ def summary(files, shapes):
     for i, (nl,npx) in enumerate(shapes):
         lines += [f'Pdi_NoOfPixels_{i}="{npx}"', f'Pdi_NoOfLines_{i}="{nl}"']
     lines += ['Ach_TimeCheck="GOOD"','Ach_AttitudeCheck=""','Rad_PracticeResultCode="GOOD"','Lbi_Satellite="ALOS2"','Lbi_ObservationDate="20200229"','Lbi_ProcessFacility="EICS"']
+    if order == 'interleaved':
+        # a legal summary whose sections are not contiguous blocks and whose file lines are not in index order
+        moved = [l for i, l in enumerate(lines) if i % 3 == 1]
+        lines = moved[::-1] + [l for i, l in enumerate(lines) if i % 3 != 1]
     return '\n'.join(lines)+'\n'
 
-def product(fs, root, images, level='1.5', **lk):
+def product(fs, root, images, level='1.5', summary_order=None, **lk):
     sid, pid = 'ALOS2123450000-200229', 'WBDR1.5RUD' if level!='1.1' else 'WBDR1.1__D'
     names = [f'VOL-{sid}-{pid}', f'LED-{sid}-{pid}'] + [f'IMG-{pol}-{sid}-{pid}' + (f'-{scan}' if scan else '') for pol, scan, _ in images] + [f'TRL-{sid}-{pid}']
     fs.makedirs(root, exist_ok=True)
-    fs.pipe(f'{root}/summary.txt', summary(names, [d.shape for _,_,d in images]).encode())
+    fs.pipe(f'{root}/summary.txt', summary(names, [d.shape for _,_,d in images], order=summary_order).encode())
     fs.pipe(f'{root}/{names[0]}', volume_dir(len(names)))
     fs.pipe(f'{root}/{names[1]}', leader_file(**lk))
     for n, (_,_,d) in zip(names[2:-1], images):
